@@ -15,6 +15,8 @@ def run(F, rep):
     rep.run(lemmas.lmer_lemmas, F, rep)
     structural.check_derives(F, rep, "C17.derive", "vmer::Lmer",
                              ["std::cmp::PartialEq", "std::cmp::Eq", "std::hash::Hash", "std::cmp::PartialOrd", "std::cmp::Ord"])
+    # a hand-written == is interpreted (the derive argument does not cover it)
+    rep.run(lemmas.lmer_eq_table, F, rep, "C17.eq")
     vis = structural.field_vis(F, "vmer::Lmer")
     if vis and all(v != "pub" for v in vis.values()):
         rep.holds("C17.encaps", "vmer::Lmer/fields-private", "the representation cannot be written from outside the crate")
